@@ -69,4 +69,58 @@ structure Scheme.Lawful (S : Scheme) : Prop where
 def SigOK (S : Scheme) (pk : S.PK) (payload : Bytes) (oracle : Option Bytes) : Prop :=
   ∀ sig, oracle = some sig → S.verify pk payload sig = true ∧ sig.length < 2 ^ 64
 
+/-- Argument ranges the Rust types guarantee (`u16` ports, `u64` sequence numbers, `IpAddr`,
+    slice lengths below 2^64). -/
+def Op.WF {S : Scheme} : Op S → Prop
+  | .setSeq s => s < 2 ^ 64
+  | .insert k v => k.length < 2 ^ 64 ∧
+      (match v with
+       | .bytes b => b.length < 2 ^ 64
+       | .uint n => n < 2 ^ 64
+       | .strs l => (encStrs l).length < 2 ^ 64 ∧ ∀ x ∈ l, x.length < 2 ^ 64)
+  | .insertRaw k _ => k.length < 2 ^ 64
+  | .setIp ip => ip.length = 4 ∨ ip.length = 16
+  | .setUdp4 p => p < 65536
+  | .setUdp6 p => p < 65536
+  | .setTcp4 p => p < 65536
+  | .setTcp6 p => p < 65536
+  | .setClientInfo n v b =>
+      (encStrs (match b with
+        | none => [n, v]
+        | some x => [n, v, x])).length < 2 ^ 64 ∧ n.length < 2 ^ 64 ∧ v.length < 2 ^ 64 ∧
+      ∀ x, b = some x → x.length < 2 ^ 64
+  | .setUdpSocket ip port => (ip.length = 4 ∨ ip.length = 16) ∧ port < 65536
+  | .setTcpSocket ip port => (ip.length = 4 ∨ ip.length = 16) ∧ port < 65536
+  | .removeInsert _ ins => ∀ k v, (k, v) ∈ ins → k.length < 2 ^ 64 ∧ v.length < 2 ^ 64
+  | _ => True
+
+/-- an update other than `set_seq` -/
+def Op.isSetSeq {S : Scheme} : Op S → Bool
+  | .setSeq _ => true
+  | _ => false
+
+/-- One update call of a history: operation, signer's public key, the signer's answer. -/
+structure Call (S : Scheme) where
+  op : Op S
+  pk : S.PK
+  oracle : Option Bytes
+
+/-- the record after a history of update calls -/
+def run (S : Scheme) (r : Record) : List (Call S) → Record
+  | [] => r
+  | c :: cs => run S (step S r c.op c.pk c.oracle).2 cs
+
+/-- the call's arguments are in range and the signer's answer verifies over what it was asked to sign -/
+def CallOK (S : Scheme) (r : Record) (c : Call S) : Prop :=
+  c.op.WF ∧ ∀ m, signRequest S r c.op c.pk = some m → SigOK S c.pk m c.oracle
+
+/-- every call of the history is `CallOK` in the state it is applied to -/
+def RunOK (S : Scheme) (r : Record) : List (Call S) → Prop
+  | [] => True
+  | c :: cs => CallOK S r c ∧ RunOK S (step S r c.op c.pk c.oracle).2 cs
+
+/-- builder state invariant (established by `Builder.addRaw` from the empty builder) -/
+def Builder.WF (b : Builder) : Prop :=
+  b.seq < 2 ^ 64 ∧ Map.Sorted b.content ∧ ∀ k v, (k, v) ∈ b.content → k.length < 2 ^ 64
+
 end EnrVerif
